@@ -13,7 +13,13 @@ const CALLS_W_BUF: &[&str] = &["send", "write", "sendto", "pwrite"];
 const CALLS_R_VEC: &[&str] = &["readv", "preadv", "recvmsg"];
 const CALLS_W_VEC: &[&str] = &["writev", "pwritev", "sendmsg"];
 
-pub fn gen(r: &mut Rng, _thorough: bool) -> String {
+pub fn gen(r: &mut Rng, thorough: bool) -> String {
+    // several hooked calls on the same descriptor in one process, the caller may flip the blocking mode in between
+    let n = match r.below(4) { 0 => 2, 1 => 3, _ => 1 };
+    (0..n).map(|_| gen_one(r, thorough)).collect::<Vec<_>>().join(" || ")
+}
+
+fn gen_one(r: &mut Rng, _thorough: bool) -> String {
     let class = r.below(4);
     let call = *r.pick(match class { 0 => CALLS_R_BUF, 1 => CALLS_W_BUF, 2 => CALLS_R_VEC, _ => CALLS_W_VEC });
     let blocking = if r.chance(3, 4) { 1 } else { 0 };
@@ -152,6 +158,19 @@ fn wait_hook(kind: WaitKind, fd: c_int, timeout: Option<std::time::Duration>) ->
 }
 
 pub fn exec(body: &str, emit: &mut dyn FnMut(&str)) {
+    let mut sv = [0 as c_int; 2];
+    if unsafe { libc::socketpair(libc::AF_UNIX, libc::SOCK_STREAM, 0, sv.as_mut_ptr()) } != 0 { emit("NOSOCK"); return; }
+    let mut outs: Vec<String> = Vec::new();
+    for seg in body.split(" || ") {
+        let mut one = String::new();
+        exec_one(seg, sv, &mut |o: &str| one = o.to_string());
+        outs.push(one);
+    }
+    emit(&outs.join(" || "));
+    unsafe { libc::close(sv[0]); libc::close(sv[1]); }
+}
+
+fn exec_one(body: &str, sv: [c_int; 2], emit: &mut dyn FnMut(&str)) {
     let parts: Vec<&str> = body.split(" ; ").collect();
     if parts.len() != 3 { emit("BADCASE"); return; }
     let head: Vec<&str> = parts[0].split_whitespace().collect();
@@ -164,18 +183,19 @@ pub fn exec(body: &str, emit: &mut dyn FnMut(&str)) {
     let waits: Vec<String> = parts[2].trim_start_matches("waits:").trim().split(',').filter(|s| !s.is_empty()).map(String::from).collect();
     let is_read = CALLS_R_BUF.contains(&call) || CALLS_R_VEC.contains(&call);
     unsafe {
-        let mut sv = [0 as c_int; 2];
-        if libc::socketpair(libc::AF_UNIX, libc::SOCK_STREAM, 0, sv.as_mut_ptr()) != 0 { emit("NOSOCK"); return; }
         let fd = sv[0];
         let tv = libc::timeval { tv_sec: limit_us / 1_000_000, tv_usec: limit_us % 1_000_000 };
         let which = if is_read { libc::SO_RCVTIMEO } else { libc::SO_SNDTIMEO };
-        libc::setsockopt(fd, libc::SOL_SOCKET, which, (&tv as *const libc::timeval).cast(), std::mem::size_of::<libc::timeval>() as u32);
+        // through the hook, as an interposed process would (keeps the runtime's limit cache coherent)
+        let _ = open_coroutine_core::syscall::setsockopt(None, fd, libc::SOL_SOCKET, which, (&tv as *const libc::timeval).cast(), std::mem::size_of::<libc::timeval>() as u32);
         // the limit the kernel really stored (it rounds to its tick): an environment fact the model is given
         let mut tv2: libc::timeval = std::mem::zeroed();
         let mut tl = std::mem::size_of::<libc::timeval>() as u32;
         libc::getsockopt(fd, libc::SOL_SOCKET, which, (&mut tv2 as *mut libc::timeval).cast(), &mut tl);
         let limit_ns: u64 = if tv2.tv_sec == 0 && tv2.tv_usec == 0 { u64::MAX } else { (tv2.tv_sec as u64) * 1_000_000_000 + (tv2.tv_usec as u64) * 1000 };
-        if !blocking { let fl = libc::fcntl(fd, libc::F_GETFL); libc::fcntl(fd, libc::F_SETFL, fl | libc::O_NONBLOCK); }
+        // the caller chooses the mode with a plain fcntl (not hooked)
+        let fl = libc::fcntl(fd, libc::F_GETFL);
+        libc::fcntl(fd, libc::F_SETFL, if blocking { fl & !libc::O_NONBLOCK } else { fl | libc::O_NONBLOCK });
         // caller buffers: one arena, 16 guard bytes between segments
         let total: usize = shape.iter().sum();
         let mut arena = vec![0u8; total + 16 * (shape.len() + 1)];
@@ -236,6 +256,5 @@ pub fn exec(body: &str, emit: &mut dyn FnMut(&str)) {
         let (reqs, wlog, moved, lasterr) = KS.with(|ks| { let k = ks.borrow(); (k.reqs.join(","), k.wlog.join(","), k.moved, k.lasterr) });
         emit(&format!("limit={} ret={} errno={} reqs={} waits={} flag={} elapsed={} moved={} lasterr={} placed={}", limit_ns, ret, errno, reqs, wlog,
             if blocking_after { 1 } else { 0 }, now - t0, moved, lasterr, if placed { "ok" } else { "bad" }));
-        libc::close(sv[0]); libc::close(sv[1]);
     }
 }
